@@ -517,12 +517,8 @@ func (x *Decimal) Float32() (float32, Accuracy) {
 		return float32(f), acc
 	}
 	z := x.Float(new(big.Float).SetPrec(32))
-	f, a := z.Float32()
-	// If big.Float -> float64 conversion is accurate, use Decimal->Float accuracy.
-	if a == big.Exact {
-		a = z.Acc()
-	}
-	return f, Accuracy(a)
+	f, _ := z.Float32()
+	return f, x.floatAcc(float64(f))
 }
 
 // Float64 returns the float64 value nearest to x. If x is too small to be
@@ -536,12 +532,17 @@ func (x *Decimal) Float64() (float64, Accuracy) {
 		return f, acc
 	}
 	z := x.Float(new(big.Float).SetPrec(64))
-	f, a := z.Float64()
-	// If big.Float -> float64 conversion is accurate, use Decimal->Float accuracy.
-	if a == big.Exact {
-		a = z.Acc()
-	}
-	return f, Accuracy(a)
+	f, _ := z.Float64()
+	return f, x.floatAcc(f)
+}
+
+// floatAcc returns the accuracy of f as an approximation of x, that is the
+// sign of f - x. (Neither of the two roundings Float32 and Float64 go through
+// knows it: the intermediate big.Float is inexact for most x, including those
+// that a float represents exactly.)
+func (x *Decimal) floatAcc(f float64) Accuracy {
+	// the decimal expansion of a float64 has at most 767 significant digits
+	return Accuracy(new(Decimal).SetPrec(767).SetFloat64(f).Cmp(x))
 }
 
 // Int returns the result of truncating x towards zero; or nil if x is an
